@@ -30,21 +30,24 @@ package meeklite
 //@   ensures [C16:buffered_data_first] old(c.rdBuf) != nil ==> recvcat(c.workerRdChan) == old(recvcat(c.workerRdChan)) && blocked == old(blocked)
 
 // enqueueWrite hands the chunk to the worker; a send on the channel the worker has closed panics and is
-// recovered (recover is not modelled: the contract is assumed, only the frame is checked by callers)
+// recovered: the panic path runs the deferred closure, recover() is non-nil there, ok becomes false.
 //@ func (*meekConn).enqueueWrite(c, b) (ok)
-//@   serves C16
-//@   nobody recover() of the send-on-closed-channel panic is outside the Go subset
-//@   requires c != nil
+//@   serves C16 C10
+//@   requires c != nil && c.workerWrChan != nil
 //@   modifies star(c.workerWrChan), blocked
+//@   ensures [C10:send_on_the_closed_queue_is_recovered] ok == !old(chanclosed(c.workerWrChan))
 //@   ensures ok ==> sentcat(c.workerWrChan) == cat(old(sentcat(c.workerWrChan)), seq(b))
 //@   ensures !ok ==> sentcat(c.workerWrChan) == old(sentcat(c.workerWrChan))
 
+// Close is idempotent: the close channel is closed by the first call only (closing a closed channel
+// panics), which is what the sync.Once is for; only the first call reports success.
+//@ pred closeInv(c) := c != nil && c.workerCloseChan != nil && oncedone(c.closeOnce) == chanclosed(c.workerCloseChan)
 //@ func (*meekConn).Close(c) (err)
-//@   serves C16
-//@   nobody sync.Once with a closure; only the effect on the close channel is stated
-//@   requires c != nil
+//@   serves C16 C10
+//@   requires closeInv(c)
 //@   modifies star(c.workerCloseChan), c.closeOnce.*
-//@   ensures chanclosed(c.workerCloseChan)
+//@   ensures [C16:close_closes_the_channel_once] chanclosed(c.workerCloseChan) && closeInv(c)
+//@   ensures [C16:first_close_succeeds] !old(chanclosed(c.workerCloseChan)) ==> err == nil
 
 // Write queues a private copy of exactly the caller's bytes, once, in call order; after Close it fails.
 //@ func (*meekConn).Write(c, b) (n, err)
@@ -84,11 +87,14 @@ package meeklite
 //@   serves C16 C10
 //@   requires c != nil && c.workerWrChan != nil && c.workerRdChan != nil && c.workerCloseChan != nil && c.workerWrChan != c.workerRdChan && c.args != nil && c.args.url != nil && c.transport != nil
 //@   requires len(c.reqcat) == 0 && len(c.respcat) == 0 && len(recvcat(c.workerWrChan)) == 0 && len(sentcat(c.workerRdChan)) == 0
+//@   requires closeInv(c) && !chanclosed(c.workerRdChan) && !chanclosed(c.workerWrChan) && c.workerCloseChan != c.workerRdChan && c.workerCloseChan != c.workerWrChan
 //@   modifies c.reqcat, c.respcat, c.nreq, star(c.workerWrChan), star(c.workerRdChan), star(c.workerCloseChan), c.closeOnce.*, blocked, now
 //@   loop 1 invariant [C16:bodies_are_the_written_bytes_in_order] cat(c.reqcat, seq(leftBuf)) == recvcat(c.workerWrChan)
 //@   loop 1 invariant [C16:responses_reach_read_in_order] sentcat(c.workerRdChan) == c.respcat
 //@   loop 1 invariant (leftBuf == nil || fresh(leftBuf)) && unchanged(c.args, c.transport, c.args.url)
+//@   loop 1 invariant [C10:queues_are_closed_once_by_the_worker_only] closeInv(c) && !chanclosed(c.workerRdChan) && !chanclosed(c.workerWrChan)
 //@   loop 2 invariant cat(c.reqcat, seq(sndBuf)) == recvcat(c.workerWrChan) && wrSz == len(sndBuf) && sentcat(c.workerRdChan) == c.respcat && (sndBuf == nil || fresh(sndBuf)) && unchanged(c.args, c.transport, c.args.url)
+//@   loop 2 invariant [C10:queues_are_closed_once_by_the_worker_only] closeInv(c) && !chanclosed(c.workerRdChan) && !chanclosed(c.workerWrChan)
 // Polling stops after Close only because the worker looks at the close channel before EVERY request:
 // each call of roundTrip is preceded, since the previous one, by a receive (select case) on
 // c.workerCloseChan.  Go's select picks among ready cases at random, so this is what "stops" can mean.
